@@ -33,7 +33,7 @@ SCN = {
     "N-list-tr": ("N", 0, "anc", 0),       # Node.anc : List[Node], transitive with inverse desc (inference writes back into the field)
 }
 NELEM = 4
-CASE_TIMEOUT_S = 5.0   # wall-clock guard per case (with Node's hash-count guard for the extend-self witness)
+CASE_TIMEOUT_S = 2.0   # CPU-time guard per case (ITIMER_VIRTUAL: immune to machine load; a non-terminating write is CPU-bound)
 LIST_OPS = ["Assign", "AssignSelf", "IAug", "Append", "Extend", "ExtendGen", "ExtendSelf", "Insert", "SetItem", "SetSlice", "SetSliceGen"]
 SET_OPS = ["Assign", "AssignList", "AssignSelf", "IAug", "Add", "Update", "Update2"]
 
@@ -106,8 +106,8 @@ def run_impl(descr) -> Dict[str, Any]:
 
     def _alarm(*_a):
         raise c15.HangGuard()
-    old_handler = signal.signal(signal.SIGALRM, _alarm)     # a write that never returns must not hang the check
-    signal.setitimer(signal.ITIMER_REAL, CASE_TIMEOUT_S)
+    old_handler = signal.signal(signal.SIGVTALRM, _alarm)     # a write that never returns must not hang the check
+    signal.setitimer(signal.ITIMER_VIRTUAL, CASE_TIMEOUT_S)
     for op in descr["ops"]:
         k, args = op[0], op[1:]
         exc = 0
@@ -166,8 +166,8 @@ def run_impl(descr) -> Dict[str, Any]:
         trace.append([cur, exc])
         rec = recorded()
         unrec.append(sorted(set(cur) - rec))
-    signal.setitimer(signal.ITIMER_REAL, 0)
-    signal.signal(signal.SIGALRM, old_handler)
+    signal.setitimer(signal.ITIMER_VIRTUAL, 0)
+    signal.signal(signal.SIGVTALRM, old_handler)
     fid = {(fam.classes[ci], nm): i for i, (ci, nm, _) in enumerate(fam.flds)}
     E = []
     for r in SymbolGraph().relations():
